@@ -79,8 +79,23 @@ Proof.
 Qed.
 
 (* ---- the scan loop ------------------------------------------------------------------
-   the body of the `while` of find_xterm_match / Palette::find_match as the translator
-   emits it, for any table [t]; the loop state is (best_index, best_distance, index) *)
+   One turn of the `while` of the nearest-colour search (find_xterm_match / Palette::find_match, or the ONE helper
+   both call after a clean-up), for any table [t], told without reference to the spelling of the translated body;
+   the loop state is (best_index, best_distance, index). *)
+Definition scan_turn (c : rgb) (t : list rgb) (s : N * N * N) : option (bctl (N * N * N)) :=
+  let '(bi, bd, i) := s in
+  if i <? len t then
+    match aget t i with
+    | None => None
+    | Some e =>
+        match distance c e with
+        | None => None
+        | Some d => Some (BNext (if d <? bd then (i, d, i + 1) else (bi, bd, i + 1)))
+        end
+    end
+  else Some (BBreak (bi, bd, i)).
+
+(* the body as the translator emits it for the code as written today (kept as a regression of the tactic below) *)
 Definition scan_step (c : rgb) (t : list rgb) : N * N * N -> option (bctl (N * N * N)) :=
   fun '(best_index1, best_distance1, index1) =>
     if (index1 <? (len t)) then
@@ -96,6 +111,49 @@ Definition scan_step (c : rgb) (t : list rgb) : N * N * N -> option (bctl (N * N
       Some (BNext (best_index3, best_distance3, index2))
     else Some (BBreak (best_index1, best_distance1, index1)).
 
+(* the loop variables in another order (the order of their `let mut`s): the same loop up to a renaming [f] of the state *)
+Definition bctl_map {S S'} (f : S -> S') (r : option (bctl S)) : option (bctl S') :=
+  match r with
+  | Some (BNext x) => Some (BNext (f x))
+  | Some (BBreak x) => Some (BBreak (f x))
+  | None => None
+  end.
+
+Lemma while_fuel0_iso {S S'} (f : S -> S') (step : S -> option (bctl S)) (step' : S' -> option (bctl S')) :
+  (forall s, step' (f s) = bctl_map f (step s)) ->
+  forall fuel s, while_fuel0 fuel step' (f s) = option_map f (while_fuel0 fuel step s).
+Proof.
+  intros H. induction fuel as [|n IH]; intros s; [reflexivity|].
+  cbn [while_fuel0]. rewrite H. destruct (step s) as [[x|x]|]; cbn [bctl_map option_map]; auto.
+Qed.
+
+(* "this translated loop body is a scan turn": case analysis driven by the goal, whatever the nesting and the
+   names of the body (distance computed first or inside the test, a join or two branches, `continue`) *)
+Ltac scan_turn_tac :=
+  intros ? ? ?; unfold scan_turn, bctl_map; cbv beta iota zeta; unfold rgb in *;
+  repeat first
+    [ reflexivity
+    | rewrite g_distance_eq
+    | progress cbv beta iota zeta
+    | match goal with
+      | |- context [match ?x with _ => _ end] =>
+          lazymatch x with
+          | context [match _ with _ => _ end] => fail
+          | _ => destruct x eqn:?
+          end
+      end
+    | congruence
+    | match goal with
+      | H : (_ <? _) = true |- _ => apply N.ltb_lt in H
+      | H : (_ <? _) = false |- _ => apply N.ltb_ge in H
+      | H : (_ <=? _) = true |- _ => apply N.leb_le in H
+      | H : (_ <=? _) = false |- _ => apply N.leb_gt in H
+      end
+    | exfalso; lia ].
+
+Lemma scan_step_turn c t : forall bi bd i, scan_step c t (bi, bd, i) = scan_turn c t (bi, bd, i).
+Proof. unfold scan_step. scan_turn_tac. Qed.
+
 Lemma aget_lt {A} (t : list A) i e : aget t i = Some e -> i < len t.
 Proof.
   unfold aget, len. intros H.
@@ -103,54 +161,113 @@ Proof.
 Qed.
 
 (* enough fuel: one step per remaining entry and one for the final test *)
-Lemma scan_loop c t : forall fuel i bi bd,
+Lemma scan_loop c t step :
+  (forall bi bd i, step (bi, bd, i) = scan_turn c t (bi, bd, i)) ->
+  forall fuel i bi bd,
   i <= len t -> (length t - N.to_nat i < fuel)%nat ->
-  while_fuel0 fuel (scan_step c t) (bi, bd, i) =
+  while_fuel0 fuel step (bi, bd, i) =
   match scan c (skipn (N.to_nat i) t) i bi bd with
   | Some (bi', bd') => Some (bi', bd', len t)
   | None => None
   end.
 Proof.
+  intros Hstep.
   induction fuel as [|f IH]; intros i bi bd Hi Hf; [lia|].
-  cbn [while_fuel0]. unfold scan_step at 1.
+  cbn [while_fuel0]. rewrite Hstep. unfold scan_turn.
   destruct (N.ltb_spec i (len t)) as [Hlt | Hge].
   - destruct (aget t i) as [e|] eqn:He.
     2:{ exfalso. unfold aget in He. apply nth_error_None in He. unfold len in Hlt. lia. }
     rewrite (skipn_cons_nth t (N.to_nat i) e He). cbn [scan].
-    rewrite g_distance_eq. destruct (distance c e) as [d|]; [|reflexivity].
+    destruct (distance c e) as [d|]; [|reflexivity].
     replace (S (N.to_nat i)) with (N.to_nat (i + 1)) by lia.
     unfold len in *.
-    destruct (d <? bd); cbv zeta; apply IH; lia.
+    destruct (d <? bd); apply IH; lia.
   - assert (i = len t) by lia. subst i. unfold len. rewrite Nat2N.id, skipn_all. reflexivity.
 Qed.
 
-(* the common text of the two searches: seed with entry [start], scan from start + 1 *)
-Lemma find_loop c t start e d0 :
-  aget t start = Some e ->
-  while_fuel0 (S (length t)) (scan_step c t) (start, d0, start + 1) =
+(* the common text of the searches: seed with entry [start], scan from start + 1 *)
+Lemma find_loop c t step fuel start i e d0 :
+  (forall bi bd i, step (bi, bd, i) = scan_turn c t (bi, bd, i)) ->
+  aget t start = Some e -> i = start + 1 -> (length t < fuel)%nat ->
+  while_fuel0 fuel step (start, d0, i) =
   match scan c (skipn (N.to_nat (start + 1)) t) (start + 1) start d0 with
   | Some (bi', bd') => Some (bi', bd', len t)
   | None => None
   end.
 Proof.
-  intros He. apply aget_lt in He. apply scan_loop; unfold len in *; lia.
+  intros Hstep He -> Hf. apply aget_lt in He. apply scan_loop; [exact Hstep | unfold len in *; lia ..].
 Qed.
+
+Lemma find_loop_perm c t (f : N * N * N -> N * N * N) step fuel init start i e d0 :
+  (forall bi bd i, step (f (bi, bd, i)) = bctl_map f (scan_turn c t (bi, bd, i))) ->
+  init = f (start, d0, i) ->
+  aget t start = Some e -> i = start + 1 -> (length t < fuel)%nat ->
+  while_fuel0 fuel step init =
+  match scan c (skipn (N.to_nat (start + 1)) t) (start + 1) start d0 with
+  | Some (bi', bd') => Some (f (bi', bd', len t))
+  | None => None
+  end.
+Proof.
+  intros Hstep -> He Hi Hf.
+  rewrite (while_fuel0_iso f (scan_turn c t) step) by (intros [[bi bd] j]; apply Hstep).
+  rewrite (find_loop c t (scan_turn c t) fuel start i e d0 (fun _ _ _ => eq_refl) He Hi Hf).
+  destruct (scan c _ _ _ _) as [[bi bd]|]; reflexivity.
+Qed.
+
+(* A translated search at the head of the goal, `<translated code> = <model>` with the model's [find_best] unfolded:
+   the seed read, its distance and the loop are consumed one by one, each found by its SHAPE in the goal (the table, the
+   start index, the fuel and the loop body are read off the goal, not named), leaving the continuation after the loop
+   with the loop's answer [(bi, bd, len t)] in place of the loop. *)
+Ltac search_tac c :=
+  cbv zeta;
+  change (@aget (N * N * N)%type) with (@aget rgb); change (@length (N * N * N)%type) with (@length rgb);
+  let He := fresh "He" in
+  lazymatch goal with
+  | |- match aget ?t ?s with _ => _ end = _ =>
+      destruct (@aget rgb t s) as [?e|] eqn:He; [|reflexivity];
+      rewrite ?g_distance_eq;
+      lazymatch goal with
+      | |- match distance c ?e' with _ => _ end = _ =>
+          destruct (distance c e') as [?d0|]; [|reflexivity]
+      end;
+      lazymatch goal with
+      | |- match while_fuel0 ?f ?body ?init with _ => _ end = _ =>
+          (* the order of (best_index, best_distance, index) in the loop state is the order of their declarations *)
+          let go perm :=
+            let Hb := fresh "Hb" in
+            assert (Hb : forall bi bd i0, body (perm (bi, bd, i0)) = bctl_map perm (scan_turn c t (bi, bd, i0))) by scan_turn_tac;
+            erewrite (find_loop_perm c t perm body f init s _ _ _ Hb ltac:(cbv beta iota; reflexivity) He
+                        ltac:(first [reflexivity | lia]) ltac:(cbn [length]; unfold pal_f0; lia));
+            clear Hb in
+          first [ go (fun '(bi, bd, i0) => (bi, bd, i0) : N * N * N)
+                | go (fun '(bi, bd, i0) => (bd, bi, i0) : N * N * N)
+                | go (fun '(bi, bd, i0) => (bi, i0, bd) : N * N * N)
+                | go (fun '(bi, bd, i0) => (i0, bi, bd) : N * N * N)
+                | go (fun '(bi, bd, i0) => (bd, i0, bi) : N * N * N)
+                | go (fun '(bi, bd, i0) => (i0, bd, bi) : N * N * N) ]
+      end
+  end.
 
 Lemma g_find_xterm_match_eq c : g_find_xterm_match c = find_xterm_match c.
 Proof.
-  unfold g_find_xterm_match, find_xterm_match, find_best. cbv zeta.
-  change (@aget (N * N * N)%type) with (@aget rgb). change (@length (N * N * N)%type) with (@length rgb).
-  destruct (@aget rgb xterm_colors 16) as [e|] eqn:He; [|reflexivity].
-  rewrite g_distance_eq. destruct (distance c e) as [d0|]; [|reflexivity].
-  change (while_fuel0 ?f _ ?s) with (while_fuel0 f (scan_step c xterm_colors) s).
-  rewrite (find_loop c xterm_colors 16 e d0 He).
-  destruct (scan c _ _ _ _) as [[bi bd]|]; reflexivity.
+  (* when the private helper no longer exists in the source, the generated name stands for the model's search
+     (tools/gen_fn_lossy.py says so in Generated/LossyFn.v); g_rgb_to_xterm_eq below is then about the inlined search *)
+  lazymatch eval cbv delta [g_find_xterm_match] in g_find_xterm_match with
+  | (fun c0 => find_xterm_match c0) => reflexivity
+  | _ =>
+      unfold g_find_xterm_match, find_xterm_match, find_best;
+      search_tac c;
+      destruct (scan c _ _ _ _) as [[bi bd]|]; reflexivity
+  end.
 Qed.
 
 Lemma g_rgb_to_xterm_eq c : g_rgb_to_xterm c = rgb_to_xterm c.
 Proof.
-  unfold g_rgb_to_xterm, rgb_to_xterm, a256_new. rewrite g_find_xterm_match_eq.
-  destruct (find_xterm_match c); reflexivity.
+  unfold g_rgb_to_xterm, rgb_to_xterm, a256_new.
+  first [ rewrite g_find_xterm_match_eq; destruct (find_xterm_match c); reflexivity
+        | unfold find_xterm_match, find_best;
+          search_tac c;
+          destruct (scan c _ _ _ _) as [[bi bd]|]; reflexivity ].
 Qed.
 
 (* ---- palette.rs --------------------------------------------------------------------- *)
@@ -187,10 +304,7 @@ Qed.
 Lemma g_find_match_eq p c : g_find_match p c = find_match p c.
 Proof.
   unfold g_find_match, find_match, find_best, pal_f0, a256_new. cbv zeta.
-  destruct (aget p 0) as [e|] eqn:He; [|reflexivity].
-  rewrite g_distance_eq. destruct (distance c e) as [d0|]; [|reflexivity].
-  change (while_fuel0 ?f _ ?s) with (while_fuel0 f (scan_step c p) s).
-  rewrite (find_loop c p 0 e d0 He).
+  search_tac c.
   destruct (scan c _ _ _ _) as [[bi bd]|]; [|reflexivity].
   rewrite g_into_ansi_eq.
   destruct (into_ansi (bi mod 256)) as [a|] eqn:Ha; [reflexivity|].
